@@ -4,6 +4,7 @@ package main
 // specification evaluation (quantifiers, old, recursive ghost functions).
 
 import (
+	"os"
 	"fmt"
 	"go/constant"
 	"go/token"
@@ -143,6 +144,30 @@ func (f *Frame) call(in ssa.Instruction, cc *ssa.CallCommon, st *State) []Term {
 			return []Term{v}
 		}
 		return []Term{TFalse}
+	case "__resultStr", "__resultBool":
+		k, ok := cc.Args[0].(*ssa.Const)
+		ki, ok2 := cc.Args[1].(*ssa.Const)
+		if !ok || !ok2 {
+			c.unsupported(f, name+" needs literal arguments")
+		}
+		key := fmt.Sprintf("res:%s:%d", constant.StringVal(k.Value), ki.Int64())
+		srt := SStr
+		if name == "__resultBool" {
+			srt = SBool
+		}
+		if v, ok := st.Ghost[key]; ok && v.Sort == srt {
+			return []Term{v}
+		}
+		v := c.fresh("ghostres", srt)
+		if st.Ghost == nil {
+			st.Ghost = map[string]Term{}
+		}
+		st.Ghost[key] = v
+		return []Term{v}
+	case "__decval":
+		return []Term{c.decval(args[0][0])}
+	case "__digits":
+		return []Term{c.sdigits(args[0][0])}
 	case "__ghost":
 		k, ok := cc.Args[0].(*ssa.Const)
 		if !ok {
@@ -225,22 +250,33 @@ func (f *Frame) call(in ssa.Instruction, cc *ssa.CallCommon, st *State) []Term {
 		return f.inline(callee, args, nil, st, in)
 	}
 	if blk == nil && inModule(callee) && f.depth < 3 && smallLeaf(callee) && (samePackage(callee, f.topFrame().fn) || callFree(callee)) && !c.eng.isRecursive(callee) {
+		short := callee.Name()
+		if callee.Signature.Recv() != nil {
+			rt := callee.Signature.Recv().Type()
+			if p, ok := rt.(*types.Pointer); ok {
+				rt = p.Elem()
+			}
+			if n, ok := rt.(*types.Named); ok {
+				short = n.Obj().Name() + "." + callee.Name()
+			}
+		}
+		qual := short
+		if callee.Pkg != nil {
+			qual = callee.Pkg.Pkg.Name() + "." + short
+		}
+		nObl := len(c.obls)
+		if !f.spec && os.Getenv("GOVC_NOINLINECS") == "" {
+			// call-site obligations of the enclosing contract apply whether or not the callee is executed in place
+			f.callsiteObligations(in, short, qual, nil, args, st)
+		}
 		if res, ok := f.tryInline(callee, args, st, in); ok {
 			if !st.dead() {
-				short := callee.Name()
-				if callee.Signature.Recv() != nil {
-					rt := callee.Signature.Recv().Type()
-					if p, ok := rt.(*types.Pointer); ok {
-						rt = p.Elem()
-					}
-					if n, ok := rt.(*types.Named); ok {
-						short = n.Obj().Name() + "." + callee.Name()
-					}
-				}
 				f.recordCall(st, cc, res, short)
 			}
 			return res
 		}
+		// not executed in place: the generic path below generates the call-site obligations itself
+		c.obls = c.obls[:nObl]
 	}
 	return f.opaqueCall(in, cc, callee, args, st)
 }
@@ -665,6 +701,10 @@ func (f *Frame) applyContract(in ssa.Instruction, cc *ssa.CallCommon, callee *ss
 		off += n
 	}
 	all := append(append([][]Term{}, args...), resVals...)
+	// ghost call records in a callee's postcondition speak about the callee's
+	// own calls, which the caller cannot see: they are unknown here
+	savedGhost, savedUnk := st.Ghost, st.GhostUnknown
+	st.Ghost, st.GhostUnknown = map[string]Term{}, true
 	for _, cl := range blk.Post {
 		pa := all
 		if cl.RecvOnly {
@@ -673,6 +713,7 @@ func (f *Frame) applyContract(in ssa.Instruction, cc *ssa.CallCommon, callee *ss
 		t := c.evalSpecFn(cl.Fn, pa, st, old, f)[0]
 		st.assume(c, t)
 	}
+	st.Ghost, st.GhostUnknown = savedGhost, savedUnk
 	if blk.Flags["trusted"] || blk.Flags["assume-contract"] {
 		c.note("assumed", "assumed contract of "+blk.QualName())
 	}
@@ -1050,6 +1091,8 @@ func (f *Frame) invoke(in ssa.Instruction, cc *ssa.CallCommon, st *State) []Term
 			off += n
 		}
 		all := append(append([][]Term{}, ic.args...), resVals...)
+		savedGhost, savedUnk := st.Ghost, st.GhostUnknown
+		st.Ghost, st.GhostUnknown = map[string]Term{}, true
 		for _, cl := range ic.blk.Post {
 			pa := all
 			if cl.RecvOnly {
@@ -1058,6 +1101,7 @@ func (f *Frame) invoke(in ssa.Instruction, cc *ssa.CallCommon, st *State) []Term
 			t := c.evalSpecFn(cl.Fn, pa, st, old, f)[0]
 			st.assume(c, Implies(ic.cond, t))
 		}
+		st.Ghost, st.GhostUnknown = savedGhost, savedUnk
 		if ic.blk.Flags["trusted"] || ic.blk.Flags["assume-contract"] {
 			c.note("assumed", "assumed contract of "+ic.blk.QualName())
 		}
@@ -1087,6 +1131,15 @@ func (f *Frame) recordCall(st *State, cc *ssa.CallCommon, res []Term, names ...s
 		st.Ghost["failed:"+n] = failed
 		if len(res) >= 1 && res[0].Sort == SInt {
 			st.Ghost["result:"+n] = res[0]
+		}
+		// single-leaf results by position (strings, booleans)
+		off := 0
+		for i := 0; i < rt.Len(); i++ {
+			nl := len(layout(rt.At(i).Type()))
+			if nl == 1 && off < len(res) && (res[off].Sort == SStr || res[off].Sort == SBool) {
+				st.Ghost[fmt.Sprintf("res:%s:%d", n, i)] = res[off]
+			}
+			off += nl
 		}
 	}
 }
